@@ -111,6 +111,8 @@ func WitnessAll(rec *ev.Rec) {
 	WitnessF2(rec)
 	WitnessF3(rec)
 	WitnessF28(rec)
+	WitnessF29(rec)
+	WitnessF30(rec)
 }
 
 // ---- F1 / F2 / F3: gNMI encoding and decoding gaps ------------------------------------------------
@@ -243,4 +245,53 @@ func SteerAway(rec *ev.Rec, o *model.GenOpts) {
 			return f.Owner.V.Wrapper && AvoidUnionBinary(f, v)
 		}
 	}
+}
+
+// ---- F29 / F30: Diff ------------------------------------------------------------------------------
+
+const (
+	F29 = "F29-diff-zero-union"
+	F30 = "F30-delete-order-enum-key"
+)
+
+// WitnessF29: Diff drops a union leaf holding the zero value of a simple union type.
+func WitnessF29(rec *ev.Rec) {
+	rec.Witness(F29, func() (bool, string) {
+		v := variants.Get("vtu")
+		a, b := model.NewNode(v.Root), model.NewNode(v.Root)
+		Child(b, "Top").Leaf["Mixed"] = model.Val{K: model.KUint64, U: 0}
+		n, err := ygot.Diff(model.Build(a), model.Build(b))
+		if err != nil {
+			return true, err.Error()
+		}
+		if len(n.Update) != 1 {
+			return true, fmt.Sprintf("Diff(empty, {/top/mixed = UnionUint64(0)}) has %d updates, want 1", len(n.Update))
+		}
+		return false, ""
+	})
+}
+
+// WitnessF30: deleting the key leaf of an enum-keyed entry before its other leaves leaves them behind.
+func WitnessF30(rec *ev.Rec) {
+	rec.Witness(F30, func() (bool, string) {
+		v := variants.Get("vtu")
+		a := model.NewNode(v.Root)
+		k := Child(Child(a, "Top"), "Keyed")
+		f := k.SI.ByName["KEnum"]
+		m := f.KeyFields[0].Type.Enum[1]
+		e := model.NewEntry(f, []model.Val{model.EnumVal(f.KeyFields[0].Type, m)})
+		e.N.Leaf["V"] = model.Val{K: model.KStr, S: "a"}
+		k.List["KEnum"] = []*model.Entry{e}
+		root := model.Build(a)
+		sch := &ytypes.Schema{Root: root, SchemaTree: v.Schema().SchemaTree, Unmarshal: v.Schema().Unmarshal}
+		base := model.EntryElems([]model.PElem{{Name: "top"}, {Name: "keyed"}}, f, 0, e.Key)
+		del := func(leaf string) *gpb.Path { return model.PathProto(append(append([]model.PElem{}, base...), model.PElem{Name: leaf})) }
+		if err := ytypes.UnmarshalNotifications(sch, []*gpb.Notification{{Delete: []*gpb.Path{del("k"), del("v")}}}); err != nil {
+			return true, "deleting k then v of /top/keyed/k-enum[k=GREEN]: " + err.Error()
+		}
+		if got := model.ObserveNorm(v, root); len(model.LeafMap(got, model.InstOpts{})) != 0 {
+			return true, "after deleting k then v of /top/keyed/k-enum[k=GREEN] the tree still holds " + fmt.Sprint(model.LeafMap(got, model.InstOpts{}))
+		}
+		return false, ""
+	})
 }
